@@ -51,6 +51,35 @@ def check(run, repo, world):
            "QueryDeviceType must be issued once, before QueryNextDeviceType",
            where(mod, fn))
     n_r = check_rdisc(run, world, MOD, Q, cfg, ys, mod)
+    loop_ids_ = set()
+    for h_ in _loops(cfg):
+        loop_ids_ |= set(_loop_body_ids(h_))
+    peeled = [y for y in ys if _is(y, "QueryNextDeviceType") and
+              y.node.id not in loop_ids_]
+    def _handled_before_loop(y):
+        # (a priming read of a rotated loop goes straight to the loop head;
+        # a peeled iteration tests its answer first)
+        seen_, stack_ = set(), [m_ for (l_, m_) in y.node.succ
+                                if l_ != "exc"]
+        while stack_:
+            x_ = stack_.pop()
+            if x_.id in seen_ or x_.id in loop_ids_:
+                continue
+            seen_.add(x_.id)
+            if x_.kind == "test":
+                return True
+            stack_ += [m_ for (l_, m_) in x_.succ if l_ != "exc"]
+        return False
+    peeled = [y for y in peeled if _handled_before_loop(y)]
+    if peeled and any(_is(y, "QueryNextDeviceType") and
+                      y.node.id in loop_ids_ for y in ys):
+        # the first poll step written out in front of the loop: tracker and
+        # accumulator then start from an answer instead of from constants,
+        # and what the loop may assume is a property of that first step
+        raise AnalysisError(
+            "QueryDeviceTypes polls once in front of its loop (a peeled "
+            "first iteration); the ordering and emptiness rules read a loop "
+            "whose tracker and list start from constants")
     _check_mono(run, mod, Q, cfg, ys)
     _check_dt_cases(run, mod, Q, cfg, ys, first)
 
@@ -780,6 +809,13 @@ def _check_concat(run, mod, G, cfg, ys, fn):
                                 "cannot unroll" % (grp.value,
                                                    type(p_).__name__))
             child, p_ = p_, parent.get(id(p_))
+        # enclosing tests that are not about a bit (the answer checks of a
+        # nested if/else pyramid) do not decide which group is reported
+        bit_tests = [(t_, b_) for (t_, b_) in tests
+                     if bit_source(t_) is not None]
+        other = [(t_, b_) for (t_, b_) in tests if bit_source(t_) is None]
+        if other and all("raw_value" in unparse(t_) for (t_, b_) in other):
+            tests = bit_tests
         if len(tests) != 1 or not tests[0][1]:
             problems.append("group %d is not added under exactly one bit "
                             "test" % grp.value)
@@ -833,6 +869,41 @@ def _check_setgroups(run, world, mod, S, cfg, ys, fn):
     qg = [y for y in ys if y.is_from and y.fn and y.fn[1].name ==
           "QueryGroups"]
     run.floor("SetGroups add/remove yields", len(adds) + len(rems), 2)
+    # a read-back that fails (silent or garbled unit) stops the sequence with
+    # DALISequenceError: nothing in SetGroups swallows it
+    for t_ in ast.walk(fn):
+        if not isinstance(t_, ast.Try):
+            continue
+        for h_ in t_.handlers:
+            names_ = ["<bare>"] if h_.type is None else [
+                unparse(e_).split(".")[-1] for e_ in (
+                    h_.type.elts if isinstance(h_.type, ast.Tuple)
+                    else [h_.type])]
+            if set(names_) & {"DALISequenceError", "Exception",
+                              "BaseException", "<bare>"}:
+                reraises = any(isinstance(x_, ast.Raise)
+                               for x_ in ast.walk(h_))
+                run.ob("R-SETGRP", S + "#read-back-failure-propagates",
+                       reraises,
+                       "SetGroups catches %s and goes on: against a unit "
+                       "that does not answer the read-back it writes blindly "
+                       "instead of stopping with DALISequenceError" % (
+                           "/".join(names_)), where(mod, h_))
+    if qg and any(n.kind == "test" and isinstance(n.ast, ast.Compare) and
+                  isinstance(n.ast.ops[0], (ast.Is, ast.IsNot)) and
+                  isinstance(n.ast.left, ast.Name) and isinstance(
+                      qg[0].node.ast, ast.Assign) and any(
+                          isinstance(t_, ast.Name) and
+                          t_.id == n.ast.left.id
+                          for t_ in qg[0].node.ast.targets)
+                  for n in cfg.reachable):
+        # read-modify-write chosen by `existing is not None` after a
+        # conditional read: the mode is then a fact about a value, which the
+        # formulas over the addressing-mode tests do not carry
+        raise AnalysisError(
+            "SetGroups decides between the two ways of writing by testing "
+            "the membership it read for None; the rule reads the choice "
+            "from tests of the address's type")
     if not qg and any(_is(y, "QueryGroupsZeroToSeven") or
                       _is(y, "QueryGroupsEightToFifteen") for y in ys):
         # the read-back written out in place of `yield from QueryGroups()`:
